@@ -31,6 +31,13 @@ def ctor_defaults(ctx):
                           finding_id=core.match_finding("C03", n, "ctor_defaults"))
 
 
+def squeeze(v):
+    """documented presentation difference: a leading num_tasks dimension of size one"""
+    while isinstance(v, list) and len(v) == 1:
+        v = v[0]
+    return v
+
+
 def _job(job):
     name, trials = job
     from ..catalogue import entry
@@ -45,12 +52,14 @@ def _job(job):
                 a = e.out_val(m.compute())
             except Exception:
                 a = T("err")
+            t1 = e.tol          # entries may choose the tolerance per configuration (float32 class states)
             cat = e.concat(cfg, batches)
             try:
                 f = e.fn_val(e.functional(cfg, cat))
             except Exception:
                 f = T("err")
-            d = None if (isinstance(a, T) and isinstance(f, T) and a.tag == f.tag == "err") else close(f, a, e.tol)
+            tol = max(t1, e.tol)
+            d = None if (isinstance(a, T) and isinstance(f, T) and a.tag == f.tag == "err") else close(squeeze(f), squeeze(a), tol)
             out.append(d)
         except Exception as ex:
             out.append(f"harness exception {type(ex).__name__}: {ex}")
